@@ -1670,4 +1670,196 @@ example : ∃ T res, tensorApply false false 1 exTsk.base2k 2 4 4 [[[3], [0]], [
     (by intro i _ r _; exact (add_sub_cancel _ _).symm)
   exact ⟨T, res, h1, h2, h3⟩
 
+/-! ## Tensor accumulator head-room derived from balanced digits -/
+
+/-- balanced digit range `[−2^(b−1), 2^(b−1))` -/
+def Bal (b : Nat) (x : Int) : Prop := -(2 ^ (b - 1)) ≤ x ∧ x < 2 ^ (b - 1)
+
+instance (b : Nat) (x : Int) : Decidable (Bal b x) := by unfold Bal; infer_instance
+
+/-- **masking keeps a balanced digit balanced**: `cnv_prepare_*` clears low bits (rounds toward `−∞` to a multiple of `2^s`, `s < b`), and
+`−2^(b−1)` is such a multiple -/
+theorem mask_balanced (b k : Nat) (hb1 : 1 ≤ b) (hb : b ≤ 62) (x : Int) (hx : Bal b x) : Bal b (Hal.maskCoeff (msbMaskBottomLimb b k) x) := by
+  unfold Bal at hx ⊢
+  have hp : (2 : Int) ^ (b - 1) ≤ 2 ^ 61 := pow_le_pow_right₀ (by norm_num) (by omega)
+  rw [mask_keeps_top_bits b k (by omega) x (by linarith) (by linarith)]
+  by_cases h : k % b = 0
+  · simp only [h, if_true]; exact hx
+  · simp only [h, if_false]
+    have hkb : k % b < b := Nat.mod_lt _ (by omega)
+    set s := b - k % b with hs
+    have hs1 : s ≤ b - 1 := by omega
+    have hpow : (2 : Int) ^ (b - 1) = 2 ^ s * 2 ^ (b - 1 - s) := by rw [← pow_add]; congr 1; omega
+    have hp0 : (0 : Int) < 2 ^ s := by positivity
+    have hm0 : (0 : Int) ≤ 2 ^ (b - 1 - s) := by positivity
+    have h1 := Int.emod_nonneg x (ne_of_gt hp0)
+    have h2 := Int.emod_lt_of_pos x hp0
+    have h3 := Int.mul_ediv_add_emod x (2 ^ s)
+    constructor
+    · -- x − x % 2^s = 2^s·(x / 2^s) ≥ −2^s·m
+      have hq : -(2 ^ (b - 1 - s) : Int) ≤ x / 2 ^ s := by
+        by_contra hc
+        push_neg at hc
+        have : x / 2 ^ s + 1 ≤ -(2 ^ (b - 1 - s) : Int) := by omega
+        have h4 : (2 : Int) ^ s * (x / 2 ^ s + 1) ≤ 2 ^ s * (-(2 ^ (b - 1 - s) : Int)) := mul_le_mul_of_nonneg_left this (le_of_lt hp0)
+        nlinarith
+      have : x - x % 2 ^ s = 2 ^ s * (x / 2 ^ s) := by linarith
+      rw [this, hpow]
+      nlinarith
+    · linarith
+
+example : Bal 4 (Hal.maskCoeff (msbMaskBottomLimb 4 6) (-7)) := mask_balanced 4 6 (by decide) (by decide) (-7) (by decide)
+
+theorem bal_abs (b : Nat) (x : Int) (h : Bal b x) : |x| ≤ 2 ^ (b - 1) := by
+  unfold Bal at h; rw [abs_le]; constructor <;> linarith
+
+theorem prepAll_balanced (N b k : Nat) (hb1 : 1 ≤ b) (hb : b ≤ 62) (a : List Col) (sa : Nat)
+    (ha : ∀ x ∈ a, x.length = sa ∧ ∀ l ∈ x, l.length = N) (hbal : ∀ x ∈ a, ∀ l ∈ x, ∀ v ∈ l, Bal b v) (i : Nat) :
+    ∀ l ∈ (prepAll N (msbMaskBottomLimb b k) a).getD i [], PB N (2 ^ (b - 1)) l := by
+  have hp0 : (0 : Int) ≤ 2 ^ (b - 1) := by positivity
+  by_cases hi : i < a.length
+  · have e : (prepAll N (msbMaskBottomLimb b k) a).getD i [] = Hal.cnvPrepareCol N (a[i]).length (msbMaskBottomLimb b k) a[i] := by
+      unfold prepAll
+      simp [List.getD_eq_getElem?_getD, List.getElem?_map, List.getElem?_eq_getElem hi]
+    have hm := List.getElem_mem hi
+    have hx := ha _ hm
+    have hbx := hbal _ hm
+    rw [e]
+    intro l hl
+    unfold Hal.cnvPrepareCol at hl
+    obtain ⟨j, _, rfl⟩ := List.mem_map.mp hl
+    have hlimb : PB N (2 ^ (b - 1)) (limbOr0 N a[i] j) ∧ ∀ v ∈ limbOr0 N a[i] j, v = 0 ∨ Bal b v := by
+      unfold limbOr0
+      rw [List.getD_eq_getElem?_getD]
+      cases hj : (a[i])[j]? with
+      | none =>
+        simp only [Option.getD_none]
+        exact ⟨PB_zero N _ hp0, fun v hv => by simp only [zeroP, List.mem_replicate] at hv; exact Or.inl hv.2⟩
+      | some p =>
+        simp only [Option.getD_some]
+        have hp := List.mem_of_getElem? hj
+        exact ⟨⟨le_of_eq (hx.2 p hp), fun v hv => bal_abs b v (hbx p hp v hv)⟩, fun v hv => Or.inr (hbx p hp v hv)⟩
+    show PB N (2 ^ (b - 1)) (if j + 1 = min (a[i]).length (a[i]).length then (limbOr0 N a[i] j).map (maskCoeff (msbMaskBottomLimb b k))
+      else if j < min (a[i]).length (a[i]).length then limbOr0 N a[i] j else zeroP N)
+    split
+    · refine ⟨by rw [List.length_map]; exact hlimb.1.1, ?_⟩
+      intro v hv
+      obtain ⟨w, hw, rfl⟩ := List.mem_map.mp hv
+      rcases hlimb.2 w hw with h0 | hbw
+      · subst h0
+        exact bal_abs b _ (mask_balanced b k hb1 hb 0 (by unfold Bal; constructor <;> [skip; positivity]; have : (0:Int) ≤ 2 ^ (b-1) := hp0; linarith))
+      · exact bal_abs b _ (mask_balanced b k hb1 hb w hbw)
+    · split
+      · exact hlimb.1
+      · exact PB_zero N _ hp0
+  · have e : (prepAll N (msbMaskBottomLimb b k) a).getD i [] = [] := by
+      unfold prepAll
+      rw [List.getD_eq_getElem?_getD, List.getElem?_eq_none (by simp; omega)]; rfl
+    rw [e]; intro l hl; simp at hl
+
+theorem colAdd_PB (N : Nat) (D : Int) (hD : 0 ≤ D) (x y : Col) (hx : ∀ l ∈ x, PB N D l) (hy : ∀ l ∈ y, PB N D l) :
+    ∀ l ∈ Hal.colAdd N x y, PB N (D + D) l := by
+  intro l hl
+  unfold Hal.colAdd at hl
+  obtain ⟨m, _, rfl⟩ := List.mem_map.mp hl
+  have h1 := limbOr0_PB x m hx hD
+  have h2 := limbOr0_PB y m hy hD
+  refine ⟨by rw [polyAdd_length]; exact le_trans (Nat.min_le_left _ _) h1.1, ?_⟩
+  intro v hv
+  unfold polyAdd at hv
+  obtain ⟨t, ht, rfl⟩ := List.getElem_of_mem hv
+  simp only [List.length_zipWith] at ht
+  simp only [List.getElem_zipWith]
+  have a1 := h1.2 _ (List.getElem_mem (by omega : t < (limbOr0 N x m).length))
+  have a2 := h2.2 _ (List.getElem_mem (by omega : t < (limbOr0 N y m).length))
+  exact (abs_add_le _ _).trans (add_le_add a1 a2)
+
+theorem PB_mono {N : Nat} {D D' : Int} (h : D ≤ D') {l : Poly} (hl : PB N D l) : PB N D' l :=
+  ⟨hl.1, fun v hv => (hl.2 v hv).trans h⟩
+
+/-- **`tensor_apply_decrypts_balanced`** — `tensor_apply_decrypts` with the accumulator head-room DERIVED inside the theorem: operands with
+balanced digits `[−2^(b−1), 2^(b−1))` (what every normalisation of the crate produces for equal radices) stay balanced under the masks
+(`mask_balanced`), the pairwise sums are bounded by `2^b`, every coefficient of every `cnv_apply_dft` by `sb·N·2^b·2^b`
+(`mul_plain_headroom`); the only remaining condition is the decidable `Core.cnvAdmissible bits sb N 2^b 2^b`. -/
+theorem tensor_apply_decrypts_balanced (big128 : Bool) (N rb rs off b : Nat) (a bb : List Col) (aK bK : Nat) (res0 : List Col) (skG : List Poly)
+    (σ : ℕ → Ks.R N) (sa sb cols : Nat) (hN : 0 < N)
+    (hcols : a.length = cols) (hcb : bb.length = cols) (hc1 : 1 ≤ cols)
+    (ha : ∀ x ∈ a, x.length = sa ∧ ∀ l ∈ x, l.length = N) (hbb : ∀ x ∈ bb, x.length = sb ∧ ∀ l ∈ x, l.length = N)
+    (habal : ∀ x ∈ a, ∀ l ∈ x, ∀ v ∈ l, Bal b v) (hbbal : ∀ x ∈ bb, ∀ l ∈ x, ∀ v ∈ l, Bal b v)
+    (hsa : 1 ≤ sa) (hsb : 1 ≤ sb) (hhi : (cnvOffsetSplit b off).1 ≤ sa + sb - 1)
+    (hr0 : res0.length = (cols + 1) * cols / 2)
+    (hrb1 : 1 ≤ rb) (hrb : rb ≤ 61) (hb1 : 1 ≤ b) (hb : b ≤ 62)
+    (hadm : cnvAdmissible (bitsOf big128) sb N (2 ^ b) (2 ^ b))
+    (hskl : skG.length = (cols + 1) * cols / 2 - 1) (hσ0 : σ 0 = 1)
+    (hτ : ∀ i j, i ≤ j → j < cols → 0 < cix cols i j → Ks.ι N (skG.getD (cix cols i j - 1) []) = σ i * σ j) :
+    ∃ T, tensorApply false big128 N rb rs off b a aK bb bK res0 = some T ∧ TensorSpec N rb rs off b a bb aK bK skG σ sa sb cols T := by
+  have hp0 : (0 : Int) ≤ 2 ^ (b - 1) := by positivity
+  have hpb0 : (0 : Int) ≤ 2 ^ b := by positivity
+  have hhalf : (2 : Int) ^ (b - 1) + 2 ^ (b - 1) = 2 ^ b := by
+    have : b = (b - 1) + 1 := by omega
+    conv_rhs => rw [this, pow_succ]
+    ring
+  have hle : (2 : Int) ^ (b - 1) ≤ 2 ^ b := by linarith
+  unfold cnvAdmissible at hadm
+  have hH0 : (0 : Int) ≤ (sb : Int) * ((N : Int) * 2 ^ b * 2 ^ b) := by positivity
+  have haP := fun i => prepAll_balanced N b aK hb1 hb a sa ha habal i
+  have hbP := fun i => prepAll_balanced N b bK hb1 hb bb sb hbb hbbal i
+  apply tensor_apply_decrypts big128 N rb rs off b a bb aK bK res0 skG σ ((sb : Int) * ((N : Int) * 2 ^ b * 2 ^ b)) sa sb cols hN hcols hcb hc1
+    ha hbb hsa hsb hhi hr0 hrb1 hrb hb1 hb hH0 hadm
+  · intro i hic
+    have hlen : ((prepAll N (msbMaskBottomLimb b bK) bb).getD i []).length = sb :=
+      (prepAll_getD N _ bb sb i (by rw [hcb]; exact hic) hbb).1
+    have := cnvApplyCol_bound N (limbBoundWithOffset (sa + sb - (cnvOffsetSplit b off).1) rs rb b (cnvOffsetSplit b off).2) (cnvOffsetSplit b off).1
+      ((prepAll N (msbMaskBottomLimb b aK) a).getD i []) ((prepAll N (msbMaskBottomLimb b bK) bb).getD i []) (2 ^ b) (2 ^ b) hpb0 hpb0
+      (fun l hl => PB_mono hle (haP i l hl)) (fun l hl v hv => ((hbP i l hl).2 v hv).trans hle)
+    rw [hlen] at this
+    exact this
+  · intro i j hij hjc
+    have hic : i < cols := by omega
+    obtain ⟨b1, b2⟩ := prepAll_getD N (msbMaskBottomLimb b bK) bb sb i (by rw [hcb]; exact hic) hbb
+    obtain ⟨b3, b4⟩ := prepAll_getD N (msbMaskBottomLimb b bK) bb sb j (by rw [hcb]; exact hjc) hbb
+    have hlen : (Hal.colAdd N ((prepAll N (msbMaskBottomLimb b bK) bb).getD i []) ((prepAll N (msbMaskBottomLimb b bK) bb).getD j [])).length = sb := by
+      rw [(colAdd_shape N _ _ (by rw [b1, b3]) b2 b4).1, b1]
+    have hx := colAdd_PB N (2 ^ (b - 1)) hp0 _ _ (haP i) (haP j)
+    have hy := colAdd_PB N (2 ^ (b - 1)) hp0 _ _ (hbP i) (hbP j)
+    rw [hhalf] at hx hy
+    have := cnvApplyCol_bound N (limbBoundWithOffset (sa + sb - (cnvOffsetSplit b off).1) rs rb b (cnvOffsetSplit b off).2) (cnvOffsetSplit b off).1
+      (Hal.colAdd N ((prepAll N (msbMaskBottomLimb b aK) a).getD i []) ((prepAll N (msbMaskBottomLimb b aK) a).getD j []))
+      (Hal.colAdd N ((prepAll N (msbMaskBottomLimb b bK) bb).getD i []) ((prepAll N (msbMaskBottomLimb b bK) bb).getD j []))
+      (2 ^ b) (2 ^ b) hpb0 hpb0 hx (fun l hl => (hy l hl).2)
+    rw [hlen] at this
+    exact this
+  · exact hskl
+  · exact hσ0
+  · exact hτ
+
+example : ∃ T, tensorApply false true 1 4 2 4 4 [[[3], [0]], [[1], [0]]] 8 [[[2], [0]], [[1], [0]]] 8 (zeroCols 1 3 2) = some T ∧ T.length = 3 := by
+  obtain ⟨T, h1, h2, _⟩ := tensor_apply_decrypts_balanced true 1 4 2 4 4 [[[3], [0]], [[1], [0]]] [[[2], [0]], [[1], [0]]] 8 8 (zeroCols 1 3 2)
+    [[2], Hal.negMul [2] [2]] (fun i => if i = 0 then 1 else Ks.ι 1 [2]) 2 2 2 (by decide) rfl rfl (by decide)
+    (by decide) (by decide) (by decide) (by decide) (by decide) (by decide) (by decide) (by decide) (by decide) (by decide) (by decide) (by decide)
+    (by decide) (by decide) rfl
+    (by
+      intro i j hij hj hpos
+      have hcases : (i = 0 ∧ j = 1) ∨ (i = 1 ∧ j = 1) := by
+        have hj2 : j < 2 := hj
+        have : ¬ (i = 0 ∧ j = 0) := by
+          rintro ⟨rfl, rfl⟩; simp [cix, colIdx] at hpos
+        omega
+      rcases hcases with ⟨rfl, rfl⟩ | ⟨rfl, rfl⟩
+      · have e : cix 2 0 1 - 1 = 0 := by decide
+        rw [e]; simp
+      · have e : cix 2 1 1 - 1 = 1 := by decide
+        rw [e]
+        show Ks.ι 1 (Hal.negMul [2] [2]) = _
+        rw [Ks.ι_negMul 1 _ _ rfl (by decide)]; simp)
+  exact ⟨T, h1, h2⟩
+
+example : PB 1 4 [3] → PB 1 9 [3] := PB_mono (by decide)
+example : ∀ l ∈ Hal.colAdd 1 [[3], [1]] [[2], [-4]], PB 1 (4 + 4) l :=
+  colAdd_PB 1 4 (by decide) _ _ (by intro l hl; simp at hl; rcases hl with rfl | rfl <;> exact ⟨by decide, by decide⟩)
+    (by intro l hl; simp at hl; rcases hl with rfl | rfl <;> exact ⟨by decide, by decide⟩)
+example : |(-8 : Int)| ≤ 2 ^ (4 - 1) := bal_abs 4 (-8) (by decide)
+example : ∀ l ∈ (prepAll 1 (msbMaskBottomLimb 4 6) [[[3], [-7]]]).getD 0 [], PB 1 (2 ^ (4 - 1)) l :=
+  prepAll_balanced 1 4 6 (by decide) (by decide) [[[3], [-7]]] 2 (by decide) (by decide) 0
+
 end C05
